@@ -589,3 +589,50 @@ PROPS_EXTRA['C03']['spec_ops'] = ['specenc']
 # C14 / C16 also run the simd-accel configuration (the validators and classifiers have SIMD kernels of their own)
 PROPS_EXTRA['C14']['harness_cfgs'] = ['default', 'simd']
 PROPS_EXTRA['C16']['harness_cfgs'] = ['default', 'simd']
+
+# C15 at memory level (agent-corC): Thm/C15Mem.lean over Model/StrSink.lean, driver operation zerotail
+PROPS_EXTRA['C15']['thm_modules'] = ['EncodingRs.Thm.C15', 'EncodingRs.Thm.C15Utf8', 'EncodingRs.Thm.C15Mem']
+PROPS_EXTRA['C15']['generated'] = PROPS_EXTRA['C15']['generated'] + [
+    'Gen.AsciiConsts (MAX_STRIDE_SIZE of ascii.rs: the window convert_*_to_str_partial zero after `written`)']
+PROPS_EXTRA['C15']['correspondences'] = PROPS_EXTRA['C15']['correspondences'] + [
+    'zerotail: the WHOLE &mut str destination after convert_utf16_to_str_partial / convert_utf16_to_str / convert_latin1_to_str_partial / '
+    'convert_latin1_to_str = Model.StrSink.convert*StrPartialMem (memory-level model of the default kernels: every store threaded through the old '
+    'contents, then zeroTrail true) for three valid multi-byte pre-fill patterns at four phases; `written` must be the model\'s; default and simd-accel '
+    'build (the window the SIMD kernels may clobber is zeroed by both: Thm.C05Str.zeroTrail_window_irrelevant)']
+PROPS_EXTRA['C15']['rule'] = PROPS_EXTRA['C15']['rule'] + (
+    ' | zerotail (harness/src/strsink.rs, ~3.8*10^3 lines quick): ASCII runs of 0..49 units (thorough: every length 0..50) followed by 8 UTF-16 / 5 Latin1 '
+    'tails x destination lengths around the ASCII run, around the complete output and +15..+35 behind it (thorough: every length) x &mut str destinations '
+    'pre-filled with the three STR_PATS patterns behind 0..3 ASCII bytes; oracles: destination valid UTF-8, nothing behind the zeroed region modified')
+PROPS_EXTRA['C15']['trivial_re'] = '^mem \\S+ \\d+ \\. => |^zerotail \\S+ \\S+ \\S+ \\. => '
+PROPS_EXTRA['C15']['assumptions'] = [
+    'bytes / UTF-16 units modelled as Nat; theorems about UTF-16 sources assume every unit < 65536, about byte sources every byte < 256 where stated',
+    "destination: Model/Mem.lean abstracts it to capacity + written prefix; Model/StrSink.lean threads a real destination (old contents) through "
+    "convert_utf16_to_utf8_partial / convert_latin1_to_utf8_partial for the DEFAULT (non-SIMD) kernels, at the granularity of the pure model (the bytes "
+    "of one source unit are stored at dst[written..]; the ALU stride functions of ascii.rs store exactly the units they count - copy_stride after "
+    "is_ascii, pack_stride_tail / copy_stride_tail up to the first non-ASCII unit). The simd-accel kernels store a whole stride before validating it and "
+    "DO modify bytes beyond `written` (open finding F5): they are not modelled, and no theorem is about them",
+    'harness profile has debug assertions on: the debug-only Latin1 assertion of convert_utf8_to_latin1_lossy / encode_latin1_lossy is modelled as enabled']
+PROPS_EXTRA['C15']['partial'] = [
+    "'bytes beyond written are left unmodified' (doc of convert_utf16_to_utf8_partial): theorem convert_utf16_to_utf8_partial_mem / "
+    "_beyond_written_unmodified (and the same for convert_latin1_to_utf8_partial) for the memory-level model of the default kernels - destination "
+    "afterwards = written prefix ++ old.drop written, for every source and old contents. On the implementation it is the guard-band oracle of memconv.rs "
+    "on every generated call (default build: no violation; simd-accel build: violated, open finding F5 - the SIMD kernels are not modelled)",
+    "the &mut str forms (convert_utf16_to_str_partial, convert_latin1_to_str_partial and the non-partial wrappers): trail zeroing modelled "
+    "(Model.StrSink.zeroTrail) and proved to leave the whole destination valid UTF-8 (Thm/C05Str.lean: convert_*_to_str_partial_valid under the "
+    "stride-garbage hypothesis - beyond `written` the conversion modified at most [written, written + MAX_STRIDE_SIZE) -, "
+    "convert_*_to_str_partial_valid_default / convert_*_to_str_valid without it for the default kernels); the whole destination is compared with the "
+    "model on every zerotail line in both builds (F9, the missing stride zeroing of convert_utf16_to_str_partial, is repaired: 7b61fb8)",
+    'the other mem functions (copy_*, convert_utf8_to_utf16*, convert_*_to_latin1*, ensure_utf16_validity, …) have no memory-level model: counts and '
+    'written prefix only; independence of old contents by the three-fill oracle (C18)',
+    "simd-accel kernels: correspondence + oracles only (harness cfg 'simd'); the theorems are about the model of the default kernels"]
+MANIFEST_TEXT_EXTRA['C15']['text'] = MANIFEST_TEXT_EXTRA['C15']['text'] + (
+    ' Memory level (Thm/C15Mem.lean over Model/StrSink.lean, default kernels): convert_utf16_to_utf8_partial_mem / convert_latin1_to_utf8_partial_mem - '
+    'with the destination threaded through the conversion as a byte list (every store a List.set at the running index, hot loop + cold tail at absolute '
+    'offsets) the call returns the counts of the pure model and leaves the destination as written prefix ++ old.drop written, for every source and every '
+    'old contents; corollaries *_beyond_written_unmodified (the documented guarantee), *_prefix_stored, *_independent_of_dst, *_mem_length. The &mut str '
+    'forms = that conversion followed by zeroTrail (whole destination valid UTF-8: Thm/C05Str.lean, a theorem module of C05). Tied to the code by the zerotail run.')
+MANIFEST_TEXT_EXTRA['C15']['note'] = (
+    'Trusted: Lean kernel; Spec/Conv.lean (Unicode ch.3 tables, maximal-subpart rule, encodeInto greedy rule); translator for UTF8_DATA.table and '
+    'MAX_STRIDE_SIZE; hand models + correspondence runs (the ascii.rs stride kernels are modelled as per-unit loops, at memory level as per-unit stores); '
+    'std conversions used as oracle. "Bytes beyond `written` untouched" is a theorem about the model of the default kernels only; the simd-accel build '
+    'violates it (open finding F5, printed as KNOWN-FINDING).')
